@@ -65,3 +65,100 @@ Proof. intros Hm. unfold normalise_average, qmean at 1. rewrite map_length, qsum
 (* and keep the order given: position i of the result belongs to interface i *)
 Theorem stored_in_order (vals : list Q) : length (normalise_average vals) = length vals.
 Proof. unfold normalise_average. apply map_length. Qed.
+
+(* ================================================================== linearity in the image, uniform images *)
+Lemma qsum_scale (s : Q) (l : list Q) : fold_right Qplus 0 (map (fun v => s * v) l) == s * fold_right Qplus 0 l.
+Proof. induction l as [|x t IH]; simpl; [ring|]. rewrite IH. ring. Qed.
+Lemma qsum_add (f g : Z * Z -> Q) (l : list (Z * Z)) :
+  fold_right Qplus 0 (map (fun q => f q + g q) l) == fold_right Qplus 0 (map f l) + fold_right Qplus 0 (map g l).
+Proof. induction l as [|x t IH]; simpl; [ring|]. rewrite IH. ring. Qed.
+(* the integrated intensity is linear in the image *)
+Theorem integrated_scale (s : Q) img band len :
+  integrated (fun x y => s * img x y) band len == s * integrated img band len.
+Proof.
+  unfold integrated. rewrite <- (map_map (fun q => img (fst q) (snd q)) (fun v => s * v)), qsum_scale. unfold Qdiv. ring.
+Qed.
+Theorem integrated_add img1 img2 band len :
+  integrated (fun x y => img1 x y + img2 x y) band len == integrated img1 band len + integrated img2 band len.
+Proof.
+  unfold integrated. rewrite (qsum_add (fun q => img1 (fst q) (snd q)) (fun q => img2 (fst q) (snd q))). unfold Qdiv. ring.
+Qed.
+
+(* the median is positively homogeneous: sorting commutes with multiplication by s > 0 *)
+Lemma Qle_bool_scale s x y : 0 < s -> Qle_bool (s * x) (s * y) = Qle_bool x y.
+Proof.
+  intros Hs. destruct (Qle_bool x y) eqn:E.
+  - apply Qle_bool_iff. apply Qle_bool_iff in E. apply Qmult_le_l; assumption.
+  - apply not_true_is_false. intros H. apply Qle_bool_iff in H. apply Qmult_le_l in H; [|assumption].
+    apply Qle_bool_iff in H. congruence.
+Qed.
+Lemma qinsert_scale s x l : 0 < s -> qinsert (s * x) (map (fun v => s * v) l) = map (fun v => s * v) (qinsert x l).
+Proof.
+  intros Hs. induction l as [|y t IH]; [reflexivity|]. cbn [map qinsert]. rewrite Qle_bool_scale by assumption.
+  destruct (Qle_bool x y); cbn [map]; [reflexivity|]. now rewrite IH.
+Qed.
+Lemma qsort_scale s l : 0 < s -> qsort (map (fun v => s * v) l) = map (fun v => s * v) (qsort l).
+Proof.
+  intros Hs. unfold qsort. induction l as [|x t IH]; [reflexivity|]. cbn [map fold_right]. rewrite IH. now apply qinsert_scale.
+Qed.
+Lemma qinsert_length x l : length (qinsert x l) = S (length l).
+Proof. induction l as [|y t IH]; [reflexivity|]. cbn [qinsert]. destruct (Qle_bool x y); cbn [length]; [reflexivity|]. now rewrite IH. Qed.
+Lemma qsort_length l : length (qsort l) = length l.
+Proof. unfold qsort. induction l as [|x t IH]; [reflexivity|]. cbn [fold_right length]. now rewrite qinsert_length, IH. Qed.
+Theorem median_scale s l : 0 < s -> median (map (fun v => s * v) l) == s * median l.
+Proof.
+  intros Hs. unfold median. rewrite map_length, qsort_scale by assumption.
+  destruct l as [|x t]; [cbn; ring|].
+  assert (Hk : (Nat.div (length (x :: t)) 2 < length (qsort (x :: t)))%nat).
+  { rewrite qsort_length. apply Nat.div_lt; cbn [length]; lia. }
+  rewrite (nth_indep _ 0 (s * 0)) by (now rewrite map_length).
+  rewrite (map_nth (fun v => s * v)). reflexivity.
+Qed.
+Lemma qmean_scale s l : qmean (map (fun v => s * v) l) == s * qmean l.
+Proof. unfold qmean. rewrite map_length, qsum_scale. unfold Qdiv. ring. Qed.
+Lemma qsum_ext (f g : Z * Z -> Q) l : (forall p, f p == g p) -> fold_right Qplus 0 (map f l) == fold_right Qplus 0 (map g l).
+Proof. intros H. induction l as [|x t IH]; simpl; [reflexivity|]. now rewrite IH, H. Qed.
+(* without integration the intensity is positively homogeneous in the image *)
+Theorem non_integrated_scale s img layers pixels : 0 < s ->
+  non_integrated (fun x y => s * img x y) layers pixels == s * non_integrated img layers pixels.
+Proof.
+  intros Hs. unfold non_integrated.
+  rewrite <- (qmean_scale s). unfold qmean. rewrite !map_length, !map_map.
+  apply Qmult_comp; [|reflexivity].
+  apply qsum_ext. intros p.
+  rewrite <- (map_map (fun q => img (fst q) (snd q)) (fun v => s * v)). now apply median_scale.
+Qed.
+
+(* a uniformly bright image gives every interface the same value: the brightness itself *)
+Lemma qinsert_repeat c n : qinsert c (repeat c n) = repeat c (S n).
+Proof.
+  destruct n as [|n]; [reflexivity|]. cbn [repeat qinsert].
+  replace (Qle_bool c c) with true by (symmetry; apply Qle_bool_iff; apply Qle_refl). reflexivity.
+Qed.
+Lemma qsort_repeat c n : qsort (repeat c n) = repeat c n.
+Proof. unfold qsort. induction n as [|n IH]; [reflexivity|]. cbn [repeat fold_right]. rewrite IH. apply qinsert_repeat. Qed.
+Lemma map_const {A} (c : Q) (l : list A) : map (fun _ => c) l = repeat c (length l).
+Proof. induction l as [|x t IH]; [reflexivity|]. cbn. now rewrite IH. Qed.
+Lemma median_const {A} (c : Q) (l : list A) : median (map (fun _ => c) l) = c \/ l = [].
+Proof.
+  destruct l as [|x t]; [right; reflexivity|left].
+  unfold median. rewrite map_const, qsort_repeat, repeat_length.
+  set (n := length (x :: t)). assert (Hk : (Nat.div n 2 < n)%nat) by (apply Nat.div_lt; unfold n; cbn [length]; lia).
+  revert Hk. generalize (Nat.div n 2). intros k Hk. revert k Hk. induction n as [|n IH]; intros k Hk; [lia|].
+  destruct k as [|k]; [reflexivity|]. cbn [repeat nth]. apply IH. lia.
+Qed.
+Theorem non_integrated_uniform c layers pixels : pixels <> [] -> non_integrated (fun _ _ => c) layers pixels == c.
+Proof.
+  intros Hne. unfold non_integrated.
+  assert (Hw : forall p : Z * Z, median (map (fun q : Z * Z => c) (layer_elements (fst p) (snd p) layers)) = c).
+  { intros p. destruct (median_const c (layer_elements (fst p) (snd p) layers)) as [H|H]; [exact H|].
+    exfalso. pose proof (f_equal (@length _) H) as Hl. rewrite (proj1 (window_is_square (fst p) (snd p) layers)) in Hl. cbn in Hl. lia. }
+  rewrite (map_ext _ (fun _ => c)) by exact Hw. rewrite map_const. unfold qmean. rewrite repeat_length.
+  assert (Hn : (0 < length pixels)%nat) by (destruct pixels; [congruence|cbn; lia]).
+  revert Hn. generalize (length pixels). intros n Hn.
+  assert (E : fold_right Qplus 0 (repeat c n) == inject_Z (Z.of_nat n) * c).
+  { clear Hn. induction n as [|n IH]; [cbn; ring|]. cbn [repeat fold_right]. rewrite IH, Nat2Z.inj_succ. unfold Z.succ. rewrite inject_Z_plus. ring. }
+  rewrite E. field. intros H0.
+  assert (Hq : 0 < inject_Z (Z.of_nat n)) by (change 0 with (inject_Z 0); rewrite <- Zlt_Qlt; lia).
+  rewrite H0 in Hq. exact (Qlt_irrefl 0 Hq).
+Qed.
